@@ -34,6 +34,19 @@ def session(rng, kind):
                   {"op": "put", "k": 1, "v": u.next(), "pad": 10}, {"op": "put", "k": 0, "v": u.next(), "pad": 4800000}, {"op": "put", "k": 2, "v": u.next(), "pad": 0},
                   {"op": "close"}]
         return steps
+    if kind == "delheavy":       # runs of deletes of distinct keys: tombstones alone take the memstore over its limit (the next Put rotates a store that was
+        # already full when the deletes before it were applied) - every delete must stay in the generation its log record is in
+        steps = [dbgen.open_step(rng.choice([0, 1, 2]), 1 << 30, 1000, mem=rng.choice([8, 12, 18]), bg=rng.random() < 0.5, interval_us=1500)]
+        for k in range(8):
+            steps.append({"op": "put", "k": k, "v": u.next(), "pad": 0})
+        for r in range(5):
+            ks = rng.sample(range(8), rng.randrange(3, 8))
+            steps += [{"op": "del", "k": k} for k in ks]
+            steps += [{"op": "sleep", "us": 3000}] if r % 2 else []
+            steps.append({"op": "put", "k": rng.randrange(8), "v": u.next(), "pad": 0})
+            steps += [{"op": "put", "k": k, "v": u.next(), "pad": 0} for k in rng.sample(ks, 2)]
+        steps += [{"op": "close"}, dbgen.open_step(1, 1 << 30, 1000, mem=200, bg=False), {"op": "del", "k": 0}, {"op": "close"}]
+        return steps
     if kind == "bigvalues":      # records larger than the write buffer: split over several write(2) calls
         steps = [dbgen.open_step(rng.choice([0, 1]), 1 << 30, 1000, mem=rng.choice([600, 1500]), bg=True, interval_us=1500, wbuf=rng.choice([16, 48]))]
         pads = [100, 300, 700]
@@ -201,6 +214,7 @@ def run(tier, pid=PID, mode="sync"):
     n = 40 if thorough else 8
     sessions = [("%s-%d" % (kinds[i % 4], i), session(rng, kinds[i % 4])) for i in range(n)]
     sessions.append(("hugeput-%d" % n, session(rng, "hugeput")))
+    sessions += [("delheavy-%d" % (n + 1 + i), session(rng, "delheavy")) for i in range(6 if thorough else 2)]
     npoints, ndistinct, descs, nok, nbad = run_sessions(o, binary, sessions, mode, pid)
     hugewal(o, binary, mode, pid)
     log("[%s] %d sessions, %d crash points (%d distinct images), %d recover into the allowed set, %d rejected" % (pid, n, npoints, ndistinct, nok, nbad))
